@@ -784,7 +784,11 @@ class OfxgetWorld:
                         a["kind"] == kind and a["acctid"] == acct and a["status"] == "ACTIVE" for a in self.acct_spec):
                     self.violate("C19", "M3-inactive", "requested",
                                  f"run{run.n}: --all requested {g[0]} for account {acct}, which the server lists as not ACTIVE")
-        if got != want:
+        same = got == want
+        if run.all and not same:
+            # an account the server lists as ACTIVE more than once may be requested once or once per listing
+            same = set(map(repr, got)) == set(map(repr, want)) and all(got.count(g) <= want.count(g) for g in got)
+        if not same:
             missing = [w for w in want if w not in got]
             extra = [g for g in got if g not in want]
             sub = "mismatch"
@@ -857,13 +861,23 @@ def draw_accounts(world):
         acctid = "".join(ACCT_ALPHA[ch.pick("acct.ch", len(ACCT_ALPHA))] for _ in range(ln)) + str(i)
         if spec and len(spec[-1]["acctid"]) >= 22 and ch.flag("acct.prefix_twin", 0.5):
             acctid = spec[-1]["acctid"][:22] + "-" + str(i)  # shares its first 22 characters with the previous one
+        relisted = None
         if spec and ch.flag("acct.shared_number", 0.1):
-            acctid = spec[ch.pick("acct.shared_of", len(spec))]["acctid"]     # same number under another type/class
+            relisted = spec[ch.pick("acct.shared_of", len(spec))]
+            acctid = relisted["acctid"]                                       # same number under another type/class
+            if not ch.flag("acct.relisted", 0.5):
+                relisted = None
         a = {"kind": kind, "acctid": acctid, "status": status}
+        if relisted is not None:
+            # ... or the very same account listed once more (some institutions list an account once per service),
+            # possibly with another status
+            a["kind"] = kind = relisted["kind"]
         a["group"] = bool(spec) and ch.flag("acct.same_aggregate", 0.25)      # share the previous ACCTINFO aggregate
         if kind in ("bank", "bp"):
             a["bankid"] = bankid
             a["accttype"] = (BANKTYPES + ["CD"])[ch.weighted("acct.type", [3, 3, 2, 2, 1])]
+            if relisted is not None:
+                a["accttype"] = relisted["accttype"]
         elif kind == "inv":
             a["brokerid"] = brokerid
         if ch.flag("acct.desc", 0.2):
